@@ -182,8 +182,9 @@ namespace
   // deflection (deflected model) x size settings x feature type x model; several points per feature (for slabs and faults at different
   // positions between the two trench coordinates, where the grains of the two sections are blended) x grain counts
   struct SizeCfg { const char *name; double size[2]; bool norm[2]; };   // index 0: composition 1 (listed first), index 1: composition 0
-  const SizeCfg SIZES[4] =
+  const SizeCfg SIZES[5] =
   {
+    {"fixed 0.4 normalised / fixed 0.3 normalised", {0.4, 0.3}, {true, true}},
     {"random normalised / fixed 0.3", {-1, 0.3}, {true, false}},
     {"fixed 0 / fixed 0.3", {0, 0.3}, {false, false}},
     {"fixed 2.5 / random not normalised", {2.5, -1}, {false, false}},
@@ -193,7 +194,7 @@ namespace
   void run_validity(uint64_t idx, Ctx &ctx)
   {
     static const int c_rot = Ctx::counter_id("rotation_matrices_checked");
-    const Radix rx({COMBOS.size(), 6, 4, 2});
+    const Radix rx({COMBOS.size(), 6, 5, 2});
     const auto d = rx.decode(idx);
     const Combo &c = COMBOS[d[0]];
     const double defl = DEFLECTIONS[d[1]];
@@ -294,8 +295,8 @@ int main(int argc, char **argv)
     Suite b; b.name = "seeds"; b.n = COMBOS.size()*3; b.run = run_seeds;
     b.bound = "11 combinations x seed source {constructor, file, file+constructor} x seeds {0,1,2,1000,2^32-1 | 2^31-1}, all pairs";
     s.push_back(b);
-    Suite v; v.name = "validity"; v.n = COMBOS.size()*6*4*2; v.run = run_validity;
-    v.bound = "11 combinations x deflection {0.5, 0, 1e-3, 1e-2, 0.1, 1} (deflected model) x 4 size settings (random normalised, fixed 0, fixed 0.3, fixed 2.5, random not normalised) x 2 seeds; up to 5 points per feature "
+    Suite v; v.name = "validity"; v.n = COMBOS.size()*6*5*2; v.run = run_validity;
+    v.bound = "11 combinations x deflection {0.5, 0, 1e-3, 1e-2, 0.1, 1} (deflected model) x 5 size settings (random normalised, fixed and normalised, fixed 0, fixed 0.3, fixed 2.5, random not normalised) x 2 seeds; up to 5 points per feature "
               "(slab / fault: 5 positions between the trench coordinates) x both compositions x {1,2,7} grains: proper rotations, normalisation, fixed sizes as given, twins agree";
     s.push_back(v);
     return s;
